@@ -326,6 +326,9 @@ func (c *client) reconnect() error {
 		return err
 	}
 
+	// heartbeat bookkeeping belongs to the old conn: nothing is outstanding on the new one
+	c.lastKeepaliveId = 0
+
 	// server needn't auth
 	if c.authInfo == nil {
 		return nil
